@@ -28,8 +28,10 @@ def headSn (l : List Seg) (d : U32) : U32 :=
   | s :: _ => s.sn
   | [] => d
 
-theorem shrinkBuf_eq (k : Kcp) : shrinkBuf k = { k with snd_una := headSn k.snd_buf k.snd_nxt } := by
-  cases hk : k.snd_buf <;> simp only [shrinkBuf, headSn, hk]
+theorem shrinkBuf_eq (k : Kcp) :
+    shrinkBuf k = { k with snd_buf := dropAcked k.snd_buf,
+                           snd_una := headSn (dropAcked k.snd_buf) k.snd_nxt } := by
+  cases hk : dropAcked k.snd_buf <;> simp only [shrinkBuf, headSn, hk]
 
 theorem headSn_shift {σ : Sigma} {l l' : List Seg} (h : All₂ (SndRel σ) l l') (d : U32) :
     headSn l' (d + σ.a) = headSn l d + σ.a := by
@@ -37,11 +39,28 @@ theorem headSn_shift {σ : Sigma} {l l' : List Seg} (h : All₂ (SndRel σ) l l'
   | nil => rfl
   | cons hr _ => exact hr.sn
 
+/-- the shift does not touch the `acked` flags, so popping the acknowledged head segments
+commutes with it -/
+theorem dropAcked_shift {σ : Sigma} {l l' : List Seg} (h : All₂ (SndRel σ) l l') :
+    All₂ (SndRel σ) (dropAcked l) (dropAcked l') := by
+  induction h with
+  | nil => exact All₂.nil
+  | @cons s s' t t' hr ht ih =>
+    simp only [dropAcked, hr.acked]
+    by_cases c : s.acked = true
+    · simp only [if_pos c]; exact ih
+    · simp only [if_neg c]; exact All₂.cons hr ht
+
+/-- `shrink_buf` (pop the acknowledged heads, then `snd_una := head.sn` or `snd_nxt`) commutes with the shift -/
 theorem shrinkBuf_sim {σ : Sigma} {k k' : Kcp} (h : Sim σ k k') : Sim σ (shrinkBuf k) (shrinkBuf k') := by
   rw [shrinkBuf_eq, shrinkBuf_eq]
-  have e : headSn k'.snd_buf k'.snd_nxt = headSn k.snd_buf k.snd_nxt + σ.a := by
-    rw [h.snd_nxt, headSn_shift h.snd_buf]
-  exact { h with snd_una := e }
+  have hd := dropAcked_shift h.snd_buf
+  have e : headSn (dropAcked k'.snd_buf) k'.snd_nxt = headSn (dropAcked k.snd_buf) k.snd_nxt + σ.a := by
+    rw [h.snd_nxt, headSn_shift hd]
+  exact { h with snd_buf := hd, snd_una := e }
+
+theorem shrinkBuf_shift {σ : Sigma} {k k' : Kcp} (h : Sim σ k k') : Sim σ (shrinkBuf k) (shrinkBuf k') :=
+  shrinkBuf_sim h
 
 theorem ackLoop_shift {σ : Sigma} {l l' : List Seg} (h : All₂ (SndRel σ) l l') (sn : U32) :
     All₂ (SndRel σ) (ackLoop sn l) (ackLoop (sn + σ.a) l') := by
